@@ -69,7 +69,7 @@ func HarnessFailAtomic() {
 	failing := &vProbeScript{outcomes: []vProbeOutcome{{kind: vProbeStatus, status: 500, latency: 0}}}
 	newTargets := []string{}
 	var err error
-	class := vChoose("error_class", 12)
+	class := vChoose("error_class", 13)
 	opts := ServiceOptions{Hosts: []string{"h"}}
 	switch class {
 	case 0: // malformed target (after a well-formed one)
@@ -119,6 +119,10 @@ func HarnessFailAtomic() {
 	case 11:
 		vAssume(!hasRollout)
 		err = router.SetRolloutSplit("svc", 10, nil)
+	case 12: // rollout deploy on the live service whose target does not become healthy
+		vProbeScripts["n1:80"] = failing
+		err = router.SetRolloutTargets("svc", []string{"n1:80"}, deployTimeout, drainTimeout)
+		newTargets = []string{"n1:80"}
 	}
 	vEmit(vEvent{kind: "cmd_return", ok: err == nil})
 	retIdx := len(vTrace) - 1
